@@ -341,6 +341,7 @@ class SpatialTransform(DeviceProperty, Module, metaclass=ABCMeta):
             if grid != self.grid() or align_corners != self.align_corners():
                 flow = FlowFields(data, grid=self.grid().reshape(data.shape[2:]))
                 flow = flow.sample(grid)
+                flow = flow.axes(Axes.from_grid(grid))
                 data = flow.tensor()
             # Displacement field with same domain as output grid, but differing size
             # - Use F.interpolate() to resize displacement field.
